@@ -276,6 +276,8 @@ def run(rep, tier, seed):
             which = e["args"][1] if e["op"] == "discarding" else e["op"]
             rep.violation(f"{PID}:{which}:{cl}", f"TLC rejected event {rj['event']} ({e['op']} {e['args']}) of EML trace {rj['trace']}: {rj['clauses']}",
                           {"kind": "eml-trace", "seed_index": rj["trace"] - 1, "event": e["op"], "args": e["args"]})
+    from harness import suite
+    suite.run_for(rep, "C14")
     rep.cov["evaluations"] = nT + cnt + sum(len(t["events"]) for t in traces)
     rep.cov["distinct_nontrivial"] = nT
     rep.cov["rule"] = "one case per labelled transition of MC_Reg, replayed after the genuine history that reaches its source state"
